@@ -19,6 +19,9 @@ for l in open(os.path.join(ROOT, "properties.jsonl")):
 for a in sys.argv:
     if a.startswith("--only="):
         props = a[len("--only="):].split(",")
+for a in sys.argv:
+    if a.startswith("--among="):
+        props = [x for x in props if x in a[len("--among="):].split(",")]
 wt = "/tmp/bnev-%d" % os.getpid()
 subprocess.check_call(["git", "-C", "/repo", "worktree", "add", "-q", "--detach", wt, "HEAD"])
 res = {"patch": patch, "touched": touched, "props": props, "results": {}}
